@@ -59,6 +59,7 @@ extern int mpt_output_bind_list(MPT_INTERFACE(output) *out, const MPT_STRUCT(nod
 		if (len < 0) {
 			return nbind ? nbind : -1;
 		}
+		++nbind;
 	} while ((conf = conf->next));
 	
 	return nbind;
